@@ -333,37 +333,43 @@ func c02Literals(p *Prog, c *Check) {
 
 func c02Fired(p *Prog, c *Check) {
 	rule := "C02-R6"
-	fn, err := p.Func("keyperimpl/shutterservice.TriggerProcessor.FetchEvents")
-	if !c.Must(err) {
+	if _, err := p.Func("keyperimpl/shutterservice.TriggerProcessor.FetchEvents"); !c.Must(err) {
 		return
 	}
-	c.Analysed(shortFn(fn))
-	fi := p.Info(fn)
+	// every place in the package where a TriggerEvent{Log, EventTriggerRegisteredEvent} is collected
+	// (FetchEvents itself or a helper it was extracted into); guards and sources may be in callers
 	n := 0
-	for _, b := range fn.Blocks {
-		for _, in := range b.Instrs {
-			call, ok := in.(*ssa.Call)
-			if !ok {
-				continue
-			}
-			vals, ok := appendedValues(call)
-			if !ok || len(vals) != 1 {
-				continue
-			}
-			flds := fi.structLitFields(unbox(vals[0]))
-			if flds == nil || flds["Log"] == nil || flds["EventTriggerRegisteredEvent"] == nil {
-				continue
-			}
-			n++
-			key := fmt.Sprintf("FetchEvents:fire#%d", n)
-			bnd := Binds{"log": flds["Log"], "reg": flds["EventTriggerRegisteredEvent"]}
-			if c.Guard(p, rule, key, call, "events = append(events, &TriggerEvent{Log, Registered})", bnd,
-				"$log.BlockNumber <= $reg.ExpirationBlockNumber",
-				"Match($def, $log)#0 == true",
-				"Match($def, $log)#1 == nil",
-				"UnmarshalBytes($def, $reg.Definition) == nil") {
-				okSrc := ParsePat("FilterLogs(...)#0[_]").Match(bnd["log"], Binds{}) && ParsePat("GetActiveEventTriggerRegisteredEvents(...)#0[_]").Match(bnd["reg"], Binds{})
-				c.Result(okSrc, rule, key+":source", p.siteOf(call), shortFn(fn), "fired (log, trigger) pair", "log or trigger row do not come from FilterLogs / GetActiveEventTriggerRegisteredEvents", "FilterLogs row × active trigger row")
+	for _, fn := range p.Funcs {
+		if relPkg(fnPkgPath(fn)) != "keyperimpl/shutterservice" || isTestScaffold(fn) {
+			continue
+		}
+		fi := p.Info(fn)
+		for _, b := range fn.Blocks {
+			for _, in := range b.Instrs {
+				call, ok := in.(*ssa.Call)
+				if !ok {
+					continue
+				}
+				vals, ok := appendedValues(call)
+				if !ok || len(vals) != 1 {
+					continue
+				}
+				flds := fi.structLitFields(unbox(vals[0]))
+				if flds == nil || flds["Log"] == nil || flds["EventTriggerRegisteredEvent"] == nil {
+					continue
+				}
+				n++
+				c.Analysed(shortFn(fn))
+				key := fmt.Sprintf("%s:fire#%d", fnName(fn), n)
+				bnd := Binds{"log": flds["Log"], "reg": flds["EventTriggerRegisteredEvent"]}
+				if c.Guard(p, rule, key, call, "events = append(events, &TriggerEvent{Log, Registered})", bnd,
+					"$log.BlockNumber <= $reg.ExpirationBlockNumber",
+					"Match($def, $log)#0 == true",
+					"Match($def, $log)#1 == nil",
+					"UnmarshalBytes($def, $reg.Definition) == nil") {
+					okSrc := p.termMatchesLifted(fn, flds["Log"], "FilterLogs(...)#0[_]", 0) && p.termMatchesLifted(fn, flds["EventTriggerRegisteredEvent"], "GetActiveEventTriggerRegisteredEvents(...)#0[_]", 0)
+					c.Result(okSrc, rule, key+":source", p.siteOf(call), shortFn(fn), "fired (log, trigger) pair", "log or trigger row do not come from FilterLogs / GetActiveEventTriggerRegisteredEvents", "FilterLogs row × active trigger row")
+				}
 			}
 		}
 	}
